@@ -133,28 +133,42 @@ class Renamer:
             present = {q: (node, cls, parent) for q, node, cls, parent in module_function_quals(m.tree)}
             missing = [q for q in known if q not in present and '<locals>' not in q]
             new = [q for q in present if q not in known and '<locals>' not in q]
+            if not missing or not new:
+                continue
+            moving = {x.split('.')[-1].replace('[setter]', '') for x in missing + new}
+
+            def blur(uses):
+                # names of functions that are themselves being renamed compare equal
+                return sorted('<renamed>' if u.lstrip('.') in moving else u for u in uses)
+            scored = []
             for q in missing:
                 scope = q.rsplit('.', 1)[0] if '.' in q else ''
-                old_name = q.split('.')[-1].replace('[setter]', '')
-                cands = []
                 for c in new:
                     cscope = c.rsplit('.', 1)[0] if '.' in c else ''
                     if cscope != scope or c.endswith('[setter]') != q.endswith('[setter]'):
                         continue
                     prof = function_profile(present[c][0])
-                    new_name = c.split('.')[-1].replace('[setter]', '')
-                    uses_ref = [u for u in known[q]['uses']]
-                    uses_new = [old_name if u == new_name else ('.' + old_name if u == '.' + new_name else u) for u in prof['uses']]
-                    if prof['params'] != known[q]['params']:
+                    if len(prof['params']) != len(known[q]['params']):
                         continue
-                    cands.append((self._sim(uses_ref, uses_new), new_name))
-                cands.sort(reverse=True)
-                if cands and cands[0][0] >= 0.6 and (len(cands) == 1 or cands[0][0] - cands[1][0] >= 0.15):
-                    new_name = cands[0][1]
-                    if old_name in all_present_names and old_name not in [x.split('.')[-1] for x in missing]:
-                        pass
-                    if self.function_renames.get(new_name, old_name) == old_name:
-                        self.function_renames[new_name] = old_name
+                    sim = self._sim(blur(known[q]['uses']), blur(prof['uses']))
+                    if prof['params'] == known[q]['params']:
+                        sim += 0.05
+                    scored.append((sim, q, c))
+            scored.sort(reverse=True)
+            used_q, used_c = set(), set()
+            for sim, q, c in scored:
+                if q in used_q or c in used_c or sim < 0.6:
+                    continue
+                # a clear winner: no other candidate for q or c within 0.1
+                rivals = [s2 for s2, q2, c2 in scored if (q2 == q) != (c2 == c) and q2 not in used_q and c2 not in used_c and abs(s2 - sim) < 0.1]
+                if rivals:
+                    continue
+                used_q.add(q)
+                used_c.add(c)
+                old_name = q.split('.')[-1].replace('[setter]', '')
+                new_name = c.split('.')[-1].replace('[setter]', '')
+                if self.function_renames.get(new_name, old_name) == old_name:
+                    self.function_renames[new_name] = old_name
 
     def detect_fields(self):
         ref = self.inv.get('fields', {})
@@ -415,6 +429,28 @@ class Inliner:
                 else:
                     self.new_defs.setdefault(node.name, []).append((m, q, node, cls, parent))
         self.changed_modules: Set[str] = set()
+        self.budget = 20000          # AST nodes the expansion may add in total: a normalisation, not a code generator
+        # helpers that can reach themselves through other new helpers are never expanded
+        calls: Dict[str, Set[str]] = {}
+        for name, defs in self.new_defs.items():
+            for (_m, _q, node, _cls, _parent) in defs:
+                for n in ast.walk(node):
+                    if isinstance(n, ast.Call):
+                        cal = n.func.attr if isinstance(n.func, ast.Attribute) else n.func.id if isinstance(n.func, ast.Name) else None
+                        if cal in self.new_defs:
+                            calls.setdefault(name, set()).add(cal)
+        self.recursive: Set[str] = set()
+        for name in self.new_defs:
+            seen, stack = set(), list(calls.get(name, ()))
+            while stack:
+                x = stack.pop()
+                if x == name:
+                    self.recursive.add(name)
+                    break
+                if x in seen:
+                    continue
+                seen.add(x)
+                stack.extend(calls.get(x, ()))
 
     # -- which helper does a call denote?
     def target_of(self, call: ast.Call, caller_mod, caller_fn):
@@ -427,7 +463,7 @@ class Inliner:
         else:
             return None
         defs = self.new_defs.get(name)
-        if not defs or name in self.known_names or len(defs) != 1:
+        if not defs or name in self.known_names or len(defs) != 1 or name in self.recursive:
             return None
         m, q, node, cls, parent = defs[0]
         if kind == 'method' and cls is None:
@@ -470,6 +506,10 @@ class Inliner:
     # -- build the replacement statements
     def expand(self, call: ast.Call, target, caller_fn, caller_mod, ctx: str, tgt_expr, stmt):
         m, q, node, cls, parent = target
+        size = sum(1 for _ in ast.walk(node))
+        if size > self.budget:
+            raise NotInlinable('expansion budget exhausted')
+        self.budget -= size
         self.check_callee(m, node, cls, caller_mod)
         if any(isinstance(a, ast.Starred) for a in call.args) or any(k.arg is None for k in call.keywords):
             raise NotInlinable('starred call')
